@@ -43,6 +43,11 @@ fn gen(t: &mut Tape, tier: Tier, tty: bool) -> (DiffCase, Cfg) {
     co.max_width = if tier == Tier::Quick { 200 } else { 250 };
     let mut cfg = gen_tagged_cfg(t, &co);
     cfg.unset("max-line-length");
+    // with an unlimited number of wrapped rows delta switches the truncation of its input off
+    // altogether, whatever --max-line-length says: nothing may be cut then
+    if matches!(cfg.get("wrap-max-lines"), Some("unlimited") | Some("∞")) && t.coin() {
+        cfg.set("max-line-length", t.ps(&["1", "20", "45", "80"]));
+    }
     cfg.unset("features");
     cfg.unset("relative-paths");
     // ansi fill needs a terminal on stdout (delta switches to spaces otherwise): only the
